@@ -90,12 +90,12 @@ func (h *httpHandler) ServeHTTP(w http.ResponseWriter, r *http.Request) {
 		return
 	}
 
-	var wg sync.WaitGroup
+	done := make(chan struct{})
+	var doneOnce sync.Once
 	e := h.executor
 
-	wg.Add(1)
 	runner := reactive.NewRerunner(r.Context(), func(ctx context.Context) (interface{}, error) {
-		defer wg.Done()
+		defer doneOnce.Do(func() { close(done) })
 
 		ctx = batch.WithBatching(ctx)
 
@@ -128,6 +128,12 @@ func (h *httpHandler) ServeHTTP(w http.ResponseWriter, r *http.Request) {
 		return nil, nil
 	}, DefaultMinRerunInterval, false)
 
-	wg.Wait()
+	// A rerunner whose context is already cancelled never calls its function, so
+	// waiting for the function alone would block for ever once the client is gone.
+	// Stop waits for a run that is in progress.
+	select {
+	case <-done:
+	case <-r.Context().Done():
+	}
 	runner.Stop()
 }
